@@ -12,7 +12,7 @@ pub fn property() -> Property {
     Property {
         id: "C18",
         level: "exploration",
-        rule: "operation histories put(k,v) / get(k) / clear / len / load_factor over a key universe of 12 (so re-insertion of present and of evicted keys is dense) and capacities 1..8, up to 60 (quick) / 200 (thorough) operations; oracle = reference FIFO map (queue of first insertions + map; a re-put keeps its queue position; the oldest present key is evicted when full) compared after EVERY operation: get of all 12 keys, len <= capacity, len, load_factor, internal queue length. Non-trivial = distinct history containing an eviction followed by a lookup of the evicted or of a surviving key",
+        rule: "operation histories put(k,v) / get(k) / clear / len / load_factor over a key universe of 12 (so re-insertion of present and of evicted keys is dense) and capacities 1..8 (mostly) and 9 .. 10,000 (with long runs of fresh keys that fill them past capacity), up to 60 (quick) / 200 (thorough) operations; oracle = reference FIFO map (queue of first insertions + map; a re-put keeps its queue position; the oldest present key is evicted when full) compared after EVERY operation: get of all 12 keys, len <= capacity, len, load_factor, internal queue length. Non-trivial = distinct history containing an eviction followed by a lookup of the evicted or of a surviving key",
         assumptions: &["private HashTable<ZobristHash, u64> reached through the cfg(inkayaku_verif) handle VerifTable"],
         parts: vec![Part {
             name: "histories",
@@ -21,7 +21,7 @@ pub fn property() -> Property {
             single_shard: false, supplementary: false,
             run: |cfg| {
                 let max = if cfg.tier == crate::run::Tier::Thorough { 200 } else { 60 };
-                run_part(cfg, (1..=8usize, proptest::collection::vec(op_strategy(), 0..=max)), |(cap, ops)| History { capacity: *cap, ops: ops.clone() }, check_history)
+                run_part(cfg, (prop_oneof![12 => 1..=8usize, 1 => proptest::sample::select(vec![9usize, 64, 1000, 1023, 1024, 2047, 2048, 4096, 5000, 10_000])], proptest::collection::vec(op_strategy(), 0..=max)), |(cap, ops)| History { capacity: *cap, ops: ops.clone() }, check_history)
             },
             replay: |v| replay_case::<History, _>(v, check_history),
         }],
@@ -35,6 +35,8 @@ pub enum Op {
     Clear,
     Len,
     LoadFactor,
+    /// `count` fresh keys in a row (fills large tables past their capacity)
+    PutMany(u32, u16),
 }
 
 fn op_strategy() -> impl Strategy<Value = Op> {
@@ -44,6 +46,7 @@ fn op_strategy() -> impl Strategy<Value = Op> {
         1 => Just(Op::Clear),
         1 => Just(Op::Len),
         1 => Just(Op::LoadFactor),
+        1 => (0..4u32, prop_oneof![3 => 1..40u16, 1 => 1000..6000u16]).prop_map(|(b, n)| Op::PutMany(b, n)),
     ]
 }
 
@@ -69,17 +72,18 @@ pub fn check_history(h: &History, ctx: &mut Ctx) -> Result<(), String> {
         return Err("HARNESS: capacity 0 is outside the property's domain".into());
     }
     let mut table = VerifTable::new(h.capacity);
-    let mut queue: VecDeque<u8> = VecDeque::new();
-    let mut map: BTreeMap<u8, u64> = BTreeMap::new();
-    let mut evicted: Vec<u8> = Vec::new();
+    let mut queue: VecDeque<u64> = VecDeque::new();
+    let mut map: BTreeMap<u64, u64> = BTreeMap::new();
+    let mut evicted: Vec<u64> = Vec::new();
+    let mut fresh: u64 = 0;
     let mut looked_after_eviction = false;
     for (i, op) in h.ops.iter().enumerate() {
         let ctxt = |what: String| format!("capacity {}, after operation #{i} of {:?}: {what}", h.capacity, &h.ops[..=i]);
         match op {
             Op::Put(k, v) => {
                 table.put(key(*k), *v);
-                if map.insert(*k, *v).is_none() {
-                    queue.push_back(*k);
+                if map.insert(key(*k), *v).is_none() {
+                    queue.push_back(key(*k));
                 }
                 if map.len() > h.capacity {
                     let old = queue.pop_front().expect("queue");
@@ -87,10 +91,43 @@ pub fn check_history(h: &History, ctx: &mut Ctx) -> Result<(), String> {
                     evicted.push(old);
                 }
             }
+            Op::PutMany(base, n) => {
+                // on small tables a long run is pointless: keep it proportionate
+                let n = if h.capacity < 64 { (*n % 40) as u64 } else { *n as u64 };
+                for _ in 0..n {
+                    fresh += 1;
+                    let k = (1u64 << 40) + ((*base as u64) << 32) + fresh;
+                    table.put(k, fresh);
+                    if map.insert(k, fresh).is_none() {
+                        queue.push_back(k);
+                    }
+                    if map.len() > h.capacity {
+                        let old = queue.pop_front().expect("queue");
+                        map.remove(&old);
+                        if evicted.len() < 64 {
+                            evicted.push(old);
+                        }
+                    }
+                    if table.len() != map.len() {
+                        return Err(ctxt(format!("during a run of fresh keys: len() = {}, model holds {}", table.len(), map.len())));
+                    }
+                }
+                // oldest survivor and newest victim
+                if let Some(&front) = queue.front() {
+                    if table.get(front) != map.get(&front).copied() {
+                        return Err(ctxt(format!("oldest surviving key {front:#x} is {:?} in the table, {:?} in the model", table.get(front), map.get(&front))));
+                    }
+                }
+                if let Some(&last) = evicted.last() {
+                    if table.get(last) != map.get(&last).copied() {
+                        return Err(ctxt(format!("evicted key {last:#x} is {:?} in the table, {:?} in the model", table.get(last), map.get(&last))));
+                    }
+                }
+            }
             Op::Get(k) => {
                 let got = table.get(key(*k));
-                if got != map.get(k).copied() {
-                    return Err(ctxt(format!("get({k}) = {got:?}, model {:?}", map.get(k))));
+                if got != map.get(&key(*k)).copied() {
+                    return Err(ctxt(format!("get({k}) = {got:?}, model {:?}", map.get(&key(*k)))));
                 }
                 if !evicted.is_empty() {
                     looked_after_eviction = true;
@@ -122,20 +159,23 @@ pub fn check_history(h: &History, ctx: &mut Ctx) -> Result<(), String> {
         }
         for k in 0..12u8 {
             let got = table.get(key(k));
-            if got != map.get(&k).copied() {
-                return Err(ctxt(format!("lookup of key {k} gives {got:?}, model {:?} (queue {:?})", map.get(&k), queue)));
+            if got != map.get(&key(k)).copied() {
+                return Err(ctxt(format!("lookup of key {k} gives {got:?}, model {:?} (queue length {})", map.get(&key(k)), queue.len())));
             }
         }
         ctx.evals(1);
     }
     if !evicted.is_empty() {
         ctx.class("with_eviction");
-        if h.ops.iter().any(|o| matches!(o, Op::Put(k, _) if evicted.contains(k))) {
+        if h.ops.iter().any(|o| matches!(o, Op::Put(k, _) if evicted.contains(&key(*k)))) {
             ctx.class("evicted_key_reinserted");
         }
     }
     if h.ops.iter().any(|o| matches!(o, Op::Clear)) {
         ctx.class("with_clear");
+    }
+    if h.capacity >= 1000 {
+        ctx.class(if evicted.is_empty() { "large_capacity" } else { "large_capacity_filled_past_capacity" });
     }
     if !evicted.is_empty() && (looked_after_eviction || !h.ops.is_empty()) {
         // every step looks up all 12 keys, so an eviction is always followed by lookups of evicted and surviving keys
